@@ -40,6 +40,8 @@ type vfRRScript struct {
 		Cmp int `json:"cmp"`
 		// WFail (icpt level, report): the RTCP writer refuses the writes of this tick (after it has seen the packets)
 		WFail bool `json:"wfail"`
+		// RFail (icpt level, rtp): the wrapped reader fails - the error is passed up and nothing is accounted (no event)
+		RFail bool `json:"rfail"`
 	} `json:"steps"`
 }
 
@@ -198,7 +200,7 @@ func vfRunRRIcpt(t *testing.T, sc *vfRRScript, out *vfWriter) {
 
 	var mu sync.Mutex
 	var written []rtcp.Packet
-	var failNow atomic.Bool
+	var failNow, failRead atomic.Bool
 	ic.BindRTCPWriter(interceptor.RTCPWriterFunc(func(pkts []rtcp.Packet, _ interceptor.Attributes) (int, error) {
 		mu.Lock()
 		defer mu.Unlock()
@@ -236,6 +238,10 @@ func vfRunRRIcpt(t *testing.T, sc *vfRRScript, out *vfWriter) {
 			b := &bound{info: &interceptor.StreamInfo{SSRC: st.S, ClockRate: st.Rate}}
 			b.reader = ic.BindRemoteStream(b.info, interceptor.RTPReaderFunc(
 				func(p []byte, a interceptor.Attributes) (int, interceptor.Attributes, error) {
+					if failRead.Load() {
+						return copy(p, b.next), a, errVfRRInjected // (the bytes are there all the same)
+					}
+
 					return copy(p, b.next), a, nil
 				}))
 			streams[st.S] = b
@@ -262,6 +268,16 @@ func vfRunRRIcpt(t *testing.T, sc *vfRRScript, out *vfWriter) {
 			}
 			b.next = raw
 			clock.Store(st.T)
+			if st.RFail {
+				failRead.Store(true)
+				_, _, rerr := b.reader.Read(buf, interceptor.Attributes{})
+				failRead.Store(false)
+				if !errors.Is(rerr, errVfRRInjected) {
+					t.Fatalf("VERIF-INFRA the failure of the wrapped reader was not passed up: %v", rerr)
+				}
+
+				continue
+			}
 			if n, _, err := b.reader.Read(buf, interceptor.Attributes{}); err != nil || n != len(raw) {
 				t.Fatalf("VERIF-INFRA read: n=%d err=%v", n, err)
 			}
